@@ -34,7 +34,7 @@ CONFIG = {
 INPLACE = ["prune_taxa", "prune_taxa_with_labels", "retain_taxa", "retain_taxa_with_labels", "filter_leaf_nodes",
            "prune_subtree", "prune_leaves_without_taxa"]
 EXTRACT = ["extract_tree", "extract_tree_with_taxa", "extract_tree_with_taxa_labels", "extract_tree_without_taxa",
-           "extract_tree_without_taxa_labels"]
+           "extract_tree_without_taxa_labels", "extract_tree_flags"]
 VARIANTS = INPLACE + EXTRACT
 TOL = 1e-9
 
@@ -203,6 +203,27 @@ def run_variant(ctx, tree, ns, bits, case, spec, step=None, taxa=None, labels=No
     n = src.n_leaves()
     K = choose_K(src, "coclade" if variant == "prune_subtree" else case["kclass"], case["ksel"])
     full = src.leafset()
+    flag_reject = None
+    if variant == "extract_tree_flags":
+        # extract_tree with a predicate that rejects a drawn set of nodes (leaves AND internal nodes) under all four
+        # settings of is_apply_filter_to_leaf_nodes / is_apply_filter_to_internal_nodes: a rejection only counts for the
+        # class the flags name; a counted rejection takes the whole subtree along
+        sel = case["ksel"]
+        lf, inf = bool(sel & 1), bool(sel & 2)
+        pool = [i for i in src.nodes() if i != src.root]
+        rejected = set(i for k_, i in enumerate(pool) if (sel >> (2 + k_ % 24)) & 1) if pool else set()
+        counted = set(i for i in rejected if (lf if not src.children[i] else inf))
+        dead = set()
+        for i in counted:
+            dead.update(src.preorder(i))
+        K = frozenset(src.taxon[i] for i in src.leaves() if i not in dead)
+        if not K:
+            ctx.cls("skipped:extract_tree_flags_nothing_survives")
+            return None
+        flag_reject = (lf, inf, set(id(src.obj[i]) for i in rejected))
+        ctx.cls("extract_tree_flags:leaf=%r:internal=%r" % (lf, inf))
+        if any(not src.children[i] and i not in dead for i in rejected):
+            ctx.cls("extract_tree_flags:rejected_leaf_survives_because_leaf_filter_is_off")
     if labels is not None:
         # a label names every taxon carrying it (under the namespace's case-insensitive rule): close K accordingly
         low = lambda x: labels[int(x[1:])].lower()
@@ -284,6 +305,10 @@ def run_variant(ctx, tree, ns, bits, case, spec, step=None, taxa=None, labels=No
         if variant == "extract_tree":
             result_tree = ctx.call(key, tree.extract_tree, node_filter_fn=lambda nd: nd.taxon is not None and tkey(nd.taxon) in Kset,
                                    suppress_unifurcations=su)
+        elif variant == "extract_tree_flags":
+            lf, inf, rej_ids = flag_reject
+            result_tree = ctx.call(key, tree.extract_tree, node_filter_fn=lambda nd: id(nd) not in rej_ids,
+                                   suppress_unifurcations=su, is_apply_filter_to_leaf_nodes=lf, is_apply_filter_to_internal_nodes=inf)
         elif variant == "extract_tree_with_taxa":
             result_tree = ctx.call(key, tree.extract_tree_with_taxa, wrap(Ktaxa), suppress_unifurcations=su)
         elif variant == "extract_tree_with_taxa_labels":
